@@ -424,7 +424,8 @@ def c18(tier):
             ("iso4", sets["iso4"], "compact", 200 if thorough else 48, 1),
             ("shaped", [a for a in sets["shaped"] if a["n"] <= (12 if thorough else 9)], "compact", 24 if thorough else 8, 1),
             ("rand", sets["rand"], "compact", 24 if thorough else 6, 1),
-            ("randlists", [a for a in sets["rand"] if a["n"] <= 5][:100 if thorough else 16], "compact", 6, 3)]
+            ("randlists", [a for a in sets["rand"] if a["n"] <= 5][:100 if thorough else 16], "compact", 6, 3),
+            ("mid", sets["mid"] if thorough else sets["mid"][:16], "compact", 2, 1)]
     nt = set()
     for name, afs, present, budget, lists in plan:
         segs = run_static(res, "C18_" + name, afs, sems="CO,PR,ST,SST,STG,ID", kinds="SE,DC,DS", cert="both", present=present,
@@ -701,7 +702,7 @@ def c14(tier):
     t1, st = vlib.judge("TraceStore.tla", slim, res.wd, "rt", shards=8)
     res.add_judge("roundtrip", t1, st, only_props={"C14"})
     out2 = os.path.join(res.wd, "resp.ndjson")
-    vlib.vh(["io", "--resp", 20000 if thorough else 3000, "--seed", seed(), "--out", out2])
+    vlib.vh(["io", "--resp", 20000 if thorough else 3000, "--bigrt", 200 if thorough else 40, "--seed", seed(), "--out", out2])
     evs = [json.loads(l) for l in open(out2)]
     t1, st = vlib.judge("TraceIO.tla", [evs], res.wd, "resp")
     res.add_judge("responses", t1, st, only_props={"C14"})
@@ -734,13 +735,14 @@ def c10(tier):
     plans = [("ref3", sets["ref3"]), ("iso4", sets["iso4"] if thorough else sets["iso4"][:250]),
              ("shaped", shaped + funnels[::-1] + rng.sample(shaped, len(shaped))),     # several orders: encoder objects are reused along the list
              ("rand", [a for a in sets["rand"] if a["n"] <= (8 if thorough else 7)][:(600 if thorough else 120)])]
+    plans.append(("padded", [a for a in sets["rand"] if 2 <= a["n"] <= 8][:(200 if thorough else 60)] + [a for a in sets["iso4"]][:60]))
     nt = set()
     for name, afs in plans:
         afile = os.path.join(res.wd, name + ".afs.jsonl")
         out = os.path.join(res.wd, name + ".ndjson")
         afgen.write(afile, afs)
         t = time.time()
-        vlib.vh(["enc", "--afs", afile, "--out", out, "--threads", vlib.NCPU, "--clauses_upto", 9])
+        vlib.vh(["enc", "--afs", afile, "--out", out, "--threads", vlib.NCPU, "--clauses_upto", 9, "--pad", "yes" if name == "padded" else "no"])
         segs = vlib.segments(out, openers=("af",))
         log("  RUN enc %-8s %5d frameworks -> %6d clause sets %.1fs" % (name, len(afs), sum(len(s) - 1 for s in segs), time.time() - t))
         t1, st = vlib.judge("TraceEnc.tla", segs, res.wd, name, shards=8)
@@ -784,7 +786,8 @@ def c19(tier):
     rnd = afgen.random_afs(seed() + 77, 6000 if thorough else 1500, 4, 9)
     plans = [("ref3", sets["ref3"]), ("iso4", afgen.iso4_sample(seed(), 100000 if thorough else 1500)),
              ("shaped", [a for a in sets["shaped"] if a["n"] <= 10]), ("rand", rnd),
-             ("groundedmix", afgen.grounded_mix(seed(), 20000 if thorough else 4000))]
+             ("groundedmix", afgen.grounded_mix(seed(), 20000 if thorough else 4000)),
+             ("padded", [dict(a, tag=a["tag"] + "#pad") for a in (afgen.grounded_mix(seed() + 1, 400 if thorough else 120, 4, 8) + [x for x in rnd if 2 <= x["n"] <= 8][:120])])]
     nt = set()
     for name, afs in plans:
         afile = os.path.join(res.wd, name + ".afs.jsonl")
